@@ -81,6 +81,7 @@ func ForSpectrum2[T, A, B any](attr ...string) (
 	if len(attr) == 0 {
 		seq = hseq.New2[T, A, B]()
 	} else {
+		atLeast(attr, 2)
 		seq = hseq.New[T](attr[0:2]...)
 	}
 
@@ -101,6 +102,7 @@ func ForSpectrum3[T, A, B, C any](attr ...string) (
 	if len(attr) == 0 {
 		seq = hseq.New3[T, A, B, C]()
 	} else {
+		atLeast(attr, 3)
 		seq = hseq.New[T](attr[0:3]...)
 	}
 
@@ -123,6 +125,7 @@ func ForSpectrum4[T, A, B, C, D any](attr ...string) (
 	if len(attr) == 0 {
 		seq = hseq.New4[T, A, B, C, D]()
 	} else {
+		atLeast(attr, 4)
 		seq = hseq.New[T](attr[0:4]...)
 	}
 
@@ -147,6 +150,7 @@ func ForSpectrum5[T, A, B, C, D, E any](attr ...string) (
 	if len(attr) == 0 {
 		seq = hseq.New5[T, A, B, C, D, E]()
 	} else {
+		atLeast(attr, 5)
 		seq = hseq.New[T](attr[0:5]...)
 	}
 
@@ -173,6 +177,7 @@ func ForSpectrum6[T, A, B, C, D, E, F any](attr ...string) (
 	if len(attr) == 0 {
 		seq = hseq.New6[T, A, B, C, D, E, F]()
 	} else {
+		atLeast(attr, 6)
 		seq = hseq.New[T](attr[0:6]...)
 	}
 
@@ -201,6 +206,7 @@ func ForSpectrum7[T, A, B, C, D, E, F, G any](attr ...string) (
 	if len(attr) == 0 {
 		seq = hseq.New7[T, A, B, C, D, E, F, G]()
 	} else {
+		atLeast(attr, 7)
 		seq = hseq.New[T](attr[0:7]...)
 	}
 
@@ -231,6 +237,7 @@ func ForSpectrum8[T, A, B, C, D, E, F, G, H any](attr ...string) (
 	if len(attr) == 0 {
 		seq = hseq.New8[T, A, B, C, D, E, F, G, H]()
 	} else {
+		atLeast(attr, 8)
 		seq = hseq.New[T](attr[0:8]...)
 	}
 
@@ -263,6 +270,7 @@ func ForSpectrum9[T, A, B, C, D, E, F, G, H, I any](attr ...string) (
 	if len(attr) == 0 {
 		seq = hseq.New9[T, A, B, C, D, E, F, G, H, I]()
 	} else {
+		atLeast(attr, 9)
 		seq = hseq.New[T](attr[0:9]...)
 	}
 
